@@ -508,15 +508,16 @@ def main(argv=None):
     if harness_errors:
         for e in harness_errors[:20]:
             print("HARNESS-ERROR: " + e, file=sys.stderr)
-        for sig, path, txt in violations[:200]:
-            print("(unreported while harness errors persist) violation candidate %s replay=%s" % (sig, path))
-        return EXIT_HARNESS
     if violations:
+        # every entry was reproduced on the plain module by replay: reported whether or not the symbolic side has
+        # harness errors (a code change can also make a deliberately wrong twin come true)
         for sig, path, txt in violations:
             print("VIOLATION property=%s replay=%s" % (prop_id, path))
             print("  signature: %s" % sig)
             print("  " + txt.replace("\n", "\n  ")[-600:])
         return EXIT_VIOLATION
+    if harness_errors:
+        return EXIT_HARNESS
     return EXIT_OK
 
 
